@@ -517,9 +517,9 @@ pub fn run(ctx: &Ctx) {
     ctx.group("seipdv1", Source::Random { n, tape_len: 128 }, seipdv1_case);
     ctx.group("seipdv2", Source::Random { n, tape_len: 128 }, seipdv2_case);
     let n = ctx.tier.pick(2000u64, 40_000);
-    ctx.group("skesk", Source::Random { n, tape_len: 160 }, skesk_case);
+    ctx.group("skesk", Source::Random { n, tape_len: 320 }, skesk_case);
     zoo::warm(&[Kind::Ed25519V4, Kind::Ed25519V6, Kind::P256V4, Kind::EdLegacyV4, Kind::RsaV4, Kind::Ed448V6, Kind::RsaV6]);
-    ctx.group("secret-key-protection", Source::Random { n, tape_len: 200 }, seckey_case);
+    ctx.group("secret-key-protection", Source::Random { n, tape_len: 400 }, seckey_case);
     zoo::warm(zoo::ALL_RECIPIENTS);
     let cheap = [Kind::EdLegacyV4, Kind::Ed25519V4, Kind::Ed25519V6, Kind::P256V4];
     ctx.group("pkesk-cheap", Source::Random { n, tape_len: 160 }, |t, rec| pkesk_case(t, rec, &cheap));
